@@ -1,6 +1,7 @@
 //go:build verif
 
 //verif:dir p2p/host/peerstore/pstoremem
+//verif:also C08 VerifC09dMemRecords
 //verif:replace github.com/libp2p/go-libp2p/core/peer.SplitAddr vC09splitAddr
 //verif:hook core/record Envelope.Record
 //verif:hook core/peer ID.MatchesPublicKey
@@ -8,7 +9,7 @@
 //verif:shard VerifC09dMemRecords 12
 //verif:obligation C09.a memory book representation invariant after every operation of every bounded history: an entry is in the expiry heap at heapIndex iff its TTL is below the connected TTL, connected entries have heapIndex -1, the heap is ordered by expiry and holds exactly the map's non-connected entries
 //verif:obligation C09.c memory book vs the reference model of the statement on every history of 3 (thorough 4) operations from {AddAddrs, SetAddrs, UpdateAddrs, ClearAddrs} x 2 addresses x TTL classes {Temp, RecentlyConnected, Connected, 0} with symbolic clock advances: Addrs(p) is exactly the set of addresses whose most recently assigned expiry lies in the future; after a long advance and gc the peer is listed iff it has a live address and nothing expired is stored
-//verif:obligation C09.d signed peer records (memory book): a record is accepted iff its Seq is not lower than the stored one, evicts the previous record's addresses it no longer lists unless connected, is returned while the peer continuously has live addresses and never after all its addresses expired or were cleared
+//verif:obligation C09.d signed peer records (memory book): a record sealed by a key that is not its peer's is refused and leaves no trace; a record is accepted iff its Seq is not lower than the stored one, evicts the previous record's addresses it no longer lists unless connected, is returned while the peer continuously has live addresses and never after all its addresses expired or were cleared
 //verif:bound one peer, two addresses (atoms), whole-second instants, history length 3 (thorough 4) + final gc, per-peer and global caps disabled (cap eviction is a separate kernel)
 //verif:stub multiaddrs are opaque atoms (peer.SplitAddr replaced by the identity for addresses without /p2p suffix; natively the real function runs); Envelope.Record / ID.MatchesPublicKey hooked (crypto and protobuf outside); clock = harness stub
 //verif:outside /p2p-suffixed addresses, AddrStream, cap eviction, concurrent callers, close/reopen
@@ -25,6 +26,8 @@ import (
 )
 
 var vC09now time.Time
+
+var vC09foreignSigner bool // the record being consumed was sealed by a key that is not its peer's
 
 type vC09clock struct{}
 
@@ -261,7 +264,7 @@ func vC09installRecordHooks() {
 		}
 		panic("unknown envelope")
 	}
-	peer.VerifHook_ID_MatchesPublicKey = func(id peer.ID, pk crypto.PubKey) bool { return true }
+	peer.VerifHook_ID_MatchesPublicKey = func(id peer.ID, pk crypto.PubKey) bool { return !vC09foreignSigner }
 }
 
 func vC09removeRecordHooks() {
@@ -303,9 +306,18 @@ func VerifC09dMemRecords() {
 			}
 			env := &record.Envelope{}
 			vC09recs, vC09envs = append(vC09recs, rec), append(vC09envs, env)
+			vC09foreignSigner = i == K-1 && vBool() // the last operation may offer a record sealed by another key
 			ok, err := mab.ConsumePeerRecord(env, ttl)
-			want := !(ref.rec && ref.recSeq > seq)
-			vAssert(err == nil && ok == want, "record accepted iff its seq is not lower than the stored one")
+			if vC09foreignSigner {
+				vC09foreignSigner = false
+				vCover("record-sealed-by-a-foreign-key")
+				vAssert(!ok && err != nil, "a record whose peer ID is not the ID of the signing key is refused")
+				ok = false // and must leave no trace: the reference does not move
+				vC09recs, vC09envs = vC09recs[:len(vC09recs)-1], vC09envs[:len(vC09envs)-1]
+			} else {
+				want := !(ref.rec && ref.recSeq > seq)
+				vAssert(err == nil && ok == want, "record accepted iff its seq is not lower than the stored one")
+			}
 			if ok {
 				vCover("record-accepted")
 				if ref.rec {
